@@ -462,7 +462,12 @@ def stock_cases(draw):
         j1 = draw(st.integers(j0 + 7, jm - 1))
         sub = [i0, i1, j0, j1]
     gap = draw(st.integers(1, 4))
-    return dict(jm=jm, im=im, sub=sub, scheme=draw(st.sampled_from(["EF", "RK2", "RK4"])),
+    # further frames after the first interval (irregular spacing) and a run that starts later than the first
+    # frame: first tracked step = start offset + steps already run
+    more = draw(st.lists(st.integers(1, 4), max_size=3))
+    total = gap + sum(more)
+    begin = draw(st.integers(0, total - 1))
+    return dict(more=more, begin=begin, jm=jm, im=im, sub=sub, scheme=draw(st.sampled_from(["EF", "RK2", "RK4"])),
                 metric=draw(st.sampled_from(["uniform", "varying", "varying"])), dx0=draw(st.floats(50, 5000)),
                 dt=draw(st.sampled_from([60, 600, 3600])), disp=draw(st.floats(0.05, 0.9)), gap=gap,
                 s=draw(st.integers(0, 3)) % gap, reverse=draw(st.booleans()), npart=draw(st.sampled_from([4, 25])),
@@ -497,7 +502,10 @@ def stock_oracle(case) -> core.CaseResult:
     if case["steady"]:
         a[:, 3] = 0
     L = float(max(jm, im))
-    Tspan = gap * dt
+    cum = np.concatenate([[0], np.cumsum([gap] + list(case.get("more", [])))]).astype(int)  # frame steps
+    begin = min(int(case.get("begin", 0)), int(cum[-1]) - 1 - s0) if case.get("more") is not None else 0
+    begin = max(begin, 0)
+    Tspan = int(cum[-1]) * dt
     amp = case["disp"] * float(dxa.min()) / dt / 4.0
 
     def f(x, y, t):
@@ -506,12 +514,13 @@ def stock_oracle(case) -> core.CaseResult:
 
     sgn = -1 if case["reverse"] else 1
     T = scen.T0 + scen.S(86400)
-    ftimes = [T, T + scen.S(sgn * gap * dt)]  # frames at simulation steps 0 and gap
-    U = np.empty((2, NL, jm, im - 1))
-    V = np.empty((2, NL, jm - 1, im))
+    ftimes = [T + scen.S(sgn * int(c_) * dt) for c_ in cum]  # frames at these simulation steps
+    nfr = len(cum)
+    U = np.empty((nfr, NL, jm, im - 1))
+    V = np.empty((nfr, NL, jm - 1, im))
     ju, iu = np.mgrid[0:jm, 0:im - 1].astype(float)
     jv, iv = np.mgrid[0:jm - 1, 0:im].astype(float)
-    for k, tk in enumerate((0.0, float(Tspan))):
+    for k, tk in enumerate([float(c_ * dt) for c_ in cum]):
         # the file holds the physical field; a reversed run feels its negative
         U[k, :] = sgn * f(iu + 0.5, ju, tk)[0][None] * glev[:, None, None]
         V[k, :] = sgn * f(iv, jv + 0.5, tk)[1][None] * glev[:, None, None]
@@ -537,7 +546,7 @@ def stock_oracle(case) -> core.CaseResult:
         modules = {}
         try:
             modules["state"] = init_module("state", {}, modules)
-            tconf = {"start": e2e.iso(T), "stop": e2e.iso(ftimes[1]), "dt": dt}
+            tconf = {"start": e2e.iso(T + scen.S(sgn * begin * dt)), "stop": e2e.iso(ftimes[-1]), "dt": dt}
             if case["reverse"]:
                 tconf["time_reversal"] = True
             modules["time"] = init_module("time", tconf, modules)
@@ -565,7 +574,12 @@ def stock_oracle(case) -> core.CaseResult:
             return res
     gx, gy = np.array(state.X), np.array(state.Y)
     dxp = dxa[np.round(Y).astype(int), np.round(X).astype(int)]
-    t0 = s0 * dt
+    t0 = (begin + s0) * dt
+    if begin:
+        res.cls("run_starts_after_the_first_frame")
+    if len(cum) > 2:
+        res.cls("several_frame_intervals")
+
     def fp(x, y, t):  # what each particle feels at its own depth
         u_, v_ = f(x, y, t)
         return u_ * gpart, v_ * gpart
